@@ -872,6 +872,16 @@ func (fx *fnExec) run() (err error) {
 		fx.asserts = append(fx.asserts, assertion{-1, "(assert " + fx.wellTyped(n, p.Type(), "alloc!0") + ")"})
 		paramInv = append(paramInv, [2]interface{}{n, p.Type()})
 	}
+	// parameters renamed since the baseline: the old name stays usable in the contract
+	if old, ok := oldSigs[fn.String()]; ok && len(old) == len(fn.Params) {
+		for i, p := range fn.Params {
+			if old[i] != p.Name() && old[i] != "" && old[i] != "_" {
+				if _, clash := fx.params[old[i]]; !clash {
+					fx.params[old[i]] = fx.params[p.Name()]
+				}
+			}
+		}
+	}
 	for _, p := range fn.FreeVars {
 		n := "fv!" + p.Name()
 		s := fx.d.SortOf(p.Type())
@@ -970,6 +980,30 @@ func (fx *fnExec) run() (err error) {
 			goal = "false"
 		}
 		fx.addObl("pure", "deterministic", fx.ct.Deterministic, goal, fn.Pos(), "no map iteration, clock, environment, randomness, goroutine or select in the call graph: "+why)
+	}
+	// ghostsets anchored at entry: initial values of ghosts for this activation
+	for _, gsc := range fx.ct.GhostSets {
+		if gsc.Anchor != "entry" {
+			continue
+		}
+		fx.usedAnchors[gsc] = true
+		c := &specCtx{fx: fx, cur: st, old: fx.entry, names: fx.params, pkg: fx.pkg}
+		v := c.eval(gsc.Expr)
+		g := fx.g.cs.Ghosts[gsc.Target]
+		if g == nil {
+			fx.fail("ghostset of unknown ghost %s", gsc.Target)
+		}
+		if v.sort == "nil" {
+			switch ghostSort(g.Sort) {
+			case "Iface":
+				v.term = "iface_nil"
+			case "Int":
+				v.term = "0"
+			}
+		}
+		n := fx.fresh("G_"+gsc.Target, ghostSort(g.Sort))
+		fx.asserts = append(fx.asserts, assertion{-1, "(assert (= " + n + " " + v.term + "))"})
+		st.ghost[gsc.Target] = n
 	}
 	fx.out[-1] = st
 	for _, b := range fx.order {
